@@ -315,6 +315,9 @@ class C16:
         if r < 0.10:
             victim = rng.choice(["A/x", "A/y", "B/z", "C/deep/er", "B", "sp ace", "A2"])
             return ("ext", [rng.choice(["rmdir", "chmod000", "chmod755", "mkdir"]), victim])
+        if r < 0.115:
+            # the limit is changed in mid-session: the next pushd has to cut the stack down to it
+            return ("setsize", [rng.choice([0, 1, 2, 3, 5, 20])])
         if r < 0.14:
             return ("withcd", [rng.choice(names + bad), rng.random() < 0.4, rng.choice(["inline", "inline", "make", "stored", "stored"])])
         if r < 0.18:
@@ -397,6 +400,12 @@ class C16:
                     elif what == "chmod755":
                         os.chmod(p, 0o755)
                 continue
+            if op == "setsize":
+                env = dict(env, DIRSTACK_SIZE=args[0])
+                envm = dict(envm, DIRSTACK_SIZE=args[0])
+                XSH.env["DIRSTACK_SIZE"] = args[0]
+                rec.count("steps_setsize" + ("_below_current_depth" if args[0] < len(D.DIRSTACK) else ""))
+                continue
             if op in ("withcd", "fixcwd"):
                 self.special_step(op, args, rec, case, trace, m)
                 continue
@@ -460,7 +469,7 @@ class C16:
                     bad = f"FAILED-STEP-CHANGED-STATE/{op}/stack-updated-before-chdir-failed"
                 else:
                     bad = f"FAILED-STEP-CHANGED-STATE/{op}/{ac}{cause}/changed={'+'.join(changed)}"
-            elif op == "pushd" and len(after[3]) > max(env["DIRSTACK_SIZE"], 0):
+            elif op == "pushd" and not failed and len(after[3]) > max(env["DIRSTACK_SIZE"], 0):
                 bad = f"STACK-EXCEEDS-DIRSTACK_SIZE/{op}/{ac}"
             elif not failed and after[1] != before[1] and after[2] != before[1]:
                 bad = f"OLDPWD-NOT-PREVIOUS-DIRECTORY/{op}/{ac}"
